@@ -48,6 +48,16 @@ BoundaryIn ==
 (* LZW code width changes (9->10->11->12 bits, table reset): one code per byte for "uniq" inputs *)
 LzwIn(d) == {In("uniq", n, 1, 0) : n \in Around({254, 766, 1790, 3838}, d)} \cup {In("uniq", n, 2, 0) : n \in {4100, 7700, 9000}}
 ParmIn == {In("rnd", 24, 4, 0), In("run", 12, 0, 0), In("ramp", 7, 3, 1)}
+(* inputs for a stage with a predictor: whole rows (k = 0..3 rows) and, where a row has more than one byte, partial rows *)
+StRowSize(s) == RowSize(DefColors(s.colors), DefBpc(s.bpc), DefCols(s.cols))
+RowAwareIn(s) ==
+  IF DefPred(s.pred) < 2 THEN ParmIn
+  ELSE LET rs == StRowSize(s)
+       IN {In("rnd", k * rs, 4, 0) : k \in 0..3} \cup {In("run", 2 * rs, 0, 0)}
+          \cup (IF rs > 1 THEN {In("rnd", rs + 1, 4, 0), In("rnd", 3 * rs - 1, 4, 0), In("ramp", 1, 3, 1)} ELSE {})
+(* cases whose input depends on the parameters of the stage s of the pipeline P(s) *)
+RowCases(S, P(_)) == UNION {Cross({P(s)}, RowAwareIn(s)) : s \in S}
+RowCasesE(S, P(_)) == UNION {CrossE({P(s)}, {In("rnd", k * StRowSize(s), 4, 0) : k \in {1, 2}}) : s \in S}     \* 1 and 2 whole rows x every edit
 
 C15Cases ==
   IF Tier = "quick"
@@ -57,18 +67,26 @@ C15Cases ==
        \cup Cross(Pipes3(Kinds), {In("empty", 0, 0, 0), In("run", 128, 0, 0), In("rnd", 9, 1, 0)})
        \cup Cross(Pipes1(Kinds \cup {Plain("LZW")}), BoundaryIn)
        \cup Cross(Pipes1({Plain("LZW"), LZW(0), LZW(1)}), LzwIn(4))
-       \cup Cross(Pipes1(WithParms("Fl", {-1}, PredAll, ParmFew) \cup WithParms("LZW", {1}, PredAll, ParmFew)), ParmIn)
+       \cup RowCases(WithParms("Fl", {-1}, PredAll, ParmFew), LAMBDA s : <<s>>)
+       \cup RowCasesE(WithParms("Fl", {-1}, {2, 12}, {<<1, 8, 5>>, <<1, 1, 7>>, <<2, 16, 3>>, <<4, 4, 3>>}), LAMBDA s : <<s>>)
+       \cup Cross(Pipes1(WithParms("LZW", {1}, PredAll, ParmFew)), ParmIn)
+       \cup RowCases(WithParms("Fl", {-1}, {2, 11, 15}, {<<1, 8, 5>>, <<2, 16, 3>>, <<1, 2, 5>>}), LAMBDA s : <<Plain("A85"), s>>)
        \cup Cross({<<Plain("A85"), s>> : s \in WithParms("Fl", {-1}, {-1, 1, 2, 12, 15}, {<<1, 8, 5>>, <<2, 16, 3>>})}
-                  \cup {<<s, Plain("RL")>> : s \in WithParms("Fl", {-1}, {-1, 1, 2, 12, 15}, {<<1, 8, 5>>, <<2, 16, 3>>})},
-                  {In("rnd", 24, 4, 0), In("run", 12, 0, 0)})
+                  \cup {<<s, Plain("RL")>> : s \in WithParms("Fl", {-1}, {-1, 1, 2, 12, 15}, {<<1, 8, 5>>, <<2, 16, 3>>, <<-1, -1, -1>>})}
+                  \cup {<<s, Plain("AHx")>> : s \in WithParms("Fl", {-1}, {2, 12}, {<<1, 8, 5>>})},     \* 2n+1 hex characters: whole rows for n = 12, 7
+                  {In("rnd", 24, 4, 0), In("run", 12, 0, 0), In("rnd", 7, 4, 0)})
   ELSE      Cross(Pipes1(Kinds) \cup Pipes2(Kinds) \cup Pipes3(Kinds), CoreIn \cup BoundaryIn)
        \cup CrossE(Pipes1(Kinds) \cup Pipes2(Kinds), CoreIn \cup {In("run", 129, 0, 0), In("rnd", 33, 2, 0), In("rnd", 1000, 3, 0)})
        \cup CrossE(Pipes3(Kinds), {In("empty", 0, 0, 0), In("rnd", 9, 1, 0)})
        \cup Cross(Pipes1({Plain("LZW"), LZW(0), LZW(1)}), CoreIn \cup BoundaryIn \cup LzwIn(12))
        \cup Cross(Pipes2({LZW(0), LZW(1)} \cup SimpleKinds) , LzwIn(2))
-       \cup Cross(Pipes1(WithParms("Fl", {-1}, PredAll, ParmAll) \cup WithParms("LZW", {0, 1}, PredAll, ParmAll)), ParmIn)
+       \cup RowCases(WithParms("Fl", {-1}, PredAll, ParmAll), LAMBDA s : <<s>>)
+       \cup RowCasesE(WithParms("Fl", {-1}, Predictors \ {1}, ParmFew), LAMBDA s : <<s>>)
+       \cup Cross(Pipes1(WithParms("LZW", {0, 1}, PredAll, ParmAll)), ParmIn)
+       \cup RowCases(WithParms("Fl", {-1}, Predictors \ {1}, ParmFew), LAMBDA s : <<Plain("A85"), s>>)
+       \cup RowCases(WithParms("Fl", {-1}, Predictors \ {1}, ParmFew), LAMBDA s : <<LZW(1), Plain("RL"), s>>)
        \cup Cross(UNION {{<<k, s>>, <<s, k>>} : k \in SimpleKinds, s \in WithParms("Fl", {-1}, PredAll, ParmFew) \cup WithParms("LZW", {-1}, PredAll, ParmFew)},
-                  {In("rnd", 24, 4, 0), In("run", 12, 0, 0)})
+                  {In("rnd", 24, 4, 0), In("run", 12, 0, 0), In("rnd", 7, 4, 0)})
        \cup Cross({<<Plain("A85"), s, Plain("RL")>> : s \in WithParms("Fl", {-1}, PredAll, ParmFew)}, {In("rnd", 24, 4, 0)})
 
 (* ------------------------------------------------------------------------ C16 inputs *)
